@@ -161,6 +161,16 @@ def _worker(items, base):
     return out
 
 
+def _leaves(shape):
+    if isinstance(shape, str):
+        return 1
+    if shape[0] == "sarr":
+        return shape[2] * _leaves(shape[1])
+    if shape[0] == "darr":
+        return 3 * _leaves(shape[1])
+    return sum(_leaves(s) for s in shape[1:])
+
+
 _CAP = 6
 _RICH = False
 
@@ -173,7 +183,9 @@ def run(tier):
     _VERSIONS = (6, 8) if tier == "quick" else (5, 6, 7, 8, 10)
     _CAP = 5 if tier == "quick" else 10
     _RICH = tier != "quick"
-    items = abi_gen.shapes(tier)
+    # shapes with more than 150 leaves cannot be assembled from parts within 256 scratch slots (they are in the
+    # universe for C07's decoding side only)
+    items = [s for s in abi_gen.shapes(tier) if _leaves(s) <= 150]
     rep.bounds["shapes"] = len(items)
     rep.bounds["values_cap_per_shape"] = _CAP
     rep.bounds["versions"] = list(_VERSIONS)
